@@ -1275,6 +1275,11 @@ _dbus_transport_set_max_received_size (DBusTransport  *transport,
                             transport->max_live_messages_unix_fds,
                             live_messages_notify,
                             transport);
+
+  /* the counter may already be on the other side of the new limit:
+   * re-evaluate whether we want to read */
+  if (transport->vtable->live_messages_changed)
+    (* transport->vtable->live_messages_changed) (transport);
 }
 
 /**
@@ -1293,6 +1298,11 @@ _dbus_transport_set_max_received_unix_fds (DBusTransport  *transport,
                             transport->max_live_messages_unix_fds,
                             live_messages_notify,
                             transport);
+
+  /* the counter may already be on the other side of the new limit:
+   * re-evaluate whether we want to read */
+  if (transport->vtable->live_messages_changed)
+    (* transport->vtable->live_messages_changed) (transport);
 }
 
 /**
